@@ -951,3 +951,18 @@ func inputTypesFilter(s *Scenario) am.FilterFunc {
 	}
 	return func(v am.Value) bool { return ok[typeIndex(v.Type)] }
 }
+
+// inputTypesFilterIfaces admits the types of the supplied values and the
+// interface types of the universe that one of them implements.
+func inputTypesFilterIfaces(s *Scenario) am.FilterFunc {
+	ok := map[int]bool{}
+	for _, l := range s.Inputs {
+		ok[l.Type] = true
+		for _, it := range []int{tI0, tI1, tI2} {
+			if l.Type < nConcrete && implements(l.Type, it) {
+				ok[it] = true
+			}
+		}
+	}
+	return func(v am.Value) bool { return ok[typeIndex(v.Type)] }
+}
